@@ -19,7 +19,7 @@ EXPLANATION = (
     'segmentation) the delivered sequence is a function of the byte stream alone.'
 )
 ASSUMPTIONS = ["asyncio.StreamReader.readexactly(n) returns exactly n bytes or raises IncompleteReadError, independent of how the bytes arrive"]
-FLOORS = {"C13.R1": 5, "C13.R2": 3, "C13.R3": 2, "C13.R4": 1}
+FLOORS = {"C13.R1": 5, "C13.R2": 3, "C13.R3": 2, "C13.R4": 1, "C13.R5": 1}
 
 
 def run(ctx):
@@ -29,6 +29,9 @@ def run(ctx):
     from . import c12
     from .common import reuse
 
+    from . import c07
+
+    reuse(ctx, "C13.R5", [c07.r2], "after a rejected frame the old stream is dropped together with the connection (reader and writer cleared), so what is delivered never depends on whether later bytes were already buffered in the abandoned reader (C07.R2)")
     reuse(ctx, "C13.R4", [c12.r4], "each frame is delivered once per subscriber: subscriber containers are sets (a repeated subscribe after re-init does not duplicate deliveries)", keep=lambda o: "AirTouchSocket" in o.construct)
 
 
@@ -66,6 +69,20 @@ def r1(ctx, R):
     cn, cc = exact[2]
     ctxt = f.expand_text(cc.args[0], cn) if cc.args else ""
     ctx.check(ctxt == want[2][1], R, "_read_one_message:checksum-length", m, cc, want[2][1], ctxt)
+    # a frame is rejected only by the header codec, the checksum and the message decoder: the read path itself refuses nothing
+    # (every length the 2-byte field can announce is legal, so a plausibility limit loses long frames and everything behind them)
+    own_raises = [n for n in g.nodes if n.kind == "stmt" and isinstance(n.ast, ast.Raise) and n.ast.exc is not None]
+    ctx.check(not own_raises, R, "_read_one_message:no-rejection-of-its-own", m, (own_raises[0].ast if own_raises else f.node), "_read_one_message raises nothing itself: frames are refused only by the header decoder, the checksum and the message decoder", f"`{norm_text(own_raises[0].ast)[:90]}` at line {own_raises[0].lineno}" if own_raises else "")
+    none_rets = [n for n in g.nodes if n.kind == "stmt" and isinstance(n.ast, ast.Return) and (n.ast.value is None or (isinstance(n.ast.value, ast.Constant) and n.ast.value.value is None))]
+    allowed = []
+    for n in none_rets:
+        dom_tests = [t for t in f.tests(lambda e: True) if any(g.dominates(f.branch(t, lab).id, n.id) and not g.dominates(f.branch(t, other).id, n.id) for lab, other in (("true", "false"), ("false", "true")))]
+        in_handler = any(h.id != n.id and g.dominates(h.id, n.id) for h in f.handlers())
+        reasons = [norm_text(t.ast) for t in dom_tests]
+        ok_reason = in_handler or all(("validate(" in r) or r in ("self._reader", "self._reader is None", "self._reader is not None") for r in reasons)
+        if not ok_reason:
+            allowed.append((n, reasons))
+    ctx.check(not allowed, R, "_read_one_message:gives-up-only-on-codec-errors", m, (allowed[0][0].ast if allowed else f.node), "the read path returns no-message only without a reader, on a failed checksum or inside the DecodeError handler", f"`return None` at line {allowed[0][0].lineno} under {allowed[0][1]}" if allowed else "")
     # results are used whole: buffers are not sliced before validation/decoding
     for (n, c), name in zip(exact, ("header", "payload", "checksum")):
         a = n.ast
